@@ -27,8 +27,6 @@ Definition TabOK (tab : list (list byte * string)) : Prop :=
 Definition InTab (tab : list (list byte * string)) (blks : list (list byte)) : Prop :=
   forall d, In d blks -> exists l, In (d, l) tab.
 
-Definition bytes_beq (d d' : list byte) : bool :=
-  Nat.eqb (length d) (length d') && forallb (fun p => Nat.eqb (fst p) (snd p)) (combine d d').
 Lemma bytes_beq_spec d : forall d', bytes_beq d d' = true <-> d = d'.
 Proof.
   unfold bytes_beq. induction d as [|x d IH]; intros [|y d']; cbn [length combine forallb Nat.eqb andb fst snd];
@@ -331,3 +329,25 @@ Proof.
 Qed.
 
 End Line.
+
+(* ---- the computable table checks imply the table hypotheses ---- *)
+Lemma loc_ok_b_spec d l : loc_ok_b d l = true -> loc_ok d l.
+Proof.
+  unfold loc_ok_b, loc_ok. intros H. apply andb_true_iff in H. destruct H as [H H4]. apply andb_true_iff in H. destruct H as [H H3].
+  apply andb_true_iff in H. destruct H as [H1 H2]. apply negb_true_iff in H1, H2, H3.
+  split; [exact H1|]. split; [exact H2|]. split; [exact H3|].
+  destruct (splitn3 "+"%char l) as [|h [|sz rest]]; try discriminate. exists h, sz, rest. split; [reflexivity|].
+  destruct (parse_dec sz) as [n|]; [|discriminate]. apply Nat.eqb_eq in H4. subst n. reflexivity.
+Qed.
+Lemma tab_ok_b_spec tab : tab_ok_b tab = true -> TabOK tab.
+Proof.
+  unfold tab_ok_b. intros H. apply andb_true_iff in H. destruct H as [H1 H2]. rewrite forallb_forall in H1, H2. split.
+  - intros d l Hin. apply loc_ok_b_spec. exact (H1 (d, l) Hin).
+  - intros d d' l Hin Hin'. specialize (H2 (d, l) Hin). rewrite forallb_forall in H2. specialize (H2 (d', l) Hin').
+    cbn [fst snd] in H2. rewrite String.eqb_refl in H2. cbn [negb orb] in H2. apply bytes_beq_spec. exact H2.
+Qed.
+Lemma in_tab_b_spec tab blks : in_tab_b tab blks = true -> InTab tab blks.
+Proof.
+  unfold in_tab_b. intros H d Hd. rewrite forallb_forall in H. specialize (H d Hd). apply existsb_exists in H.
+  destruct H as ([d0 l] & Hin & E). cbn [fst] in E. apply bytes_beq_spec in E. subst d0. exists l. exact Hin.
+Qed.
